@@ -59,6 +59,23 @@ Hardening, round 3 (after the missed seeded changes C03-E, C03-F):
             thing in the run.  ambient_probe(): a fixed sample with the root logger at DEBUG, stdout / stderr raising on
             write, both, `random` reseeded, warnings as errors; ambient_children(): the sample in a fresh interpreter (the
             results at the END of the run must equal it), under `python -O`, and with the FIRST call on every class failing.
+
+Hardening, round 4 (after the seeded changes C03-G, C03-H, reported by the coverage obligation only):
+  relations among >= 3 fields -> relation_cases(): the variant's numeric view is a list of units (integer / bit-string / octet-string
+            fields of >= 4 bits; runs of adjacent sub-octet fields as one number, e.g. the service-options octet; consecutive 32- / 16- /
+            8-bit words of opaque payload fields).  Constructed: for unit triples (a, b -> c) the target = xor / sum / both differences /
+            and / or / high part of sum, difference (low part = truncation to the target's width); for pairs (a -> c) equality across
+            types, rotations, shifts, high part, negation, complement, bit / octet reversal, +-1; a == b != c, a == b == c, arithmetic
+            progressions; the check field = the RIGHT check value xor / + / - / & / | another field; derived quantities of a payload
+            field (population count, non-zero / leading / trailing zero octets, first / last octet, octet sum / xor, 16-bit word sum,
+            length) standing in another field; every exact population count 0..n of every payload field; repeated sub-blocks (all words
+            equal, period 2, equal halves, palindrome, two equal words, counting, all equal but one bit).  TWO relations at once: two
+            targets computed from the same two sources; two relations on disjoint units of one width class (payload words + the
+            whole fields of that width), one of the results optionally rotated / octet-swapped / complemented; mixed-width disjoint
+            pairs (sampled).  Quick runs take a seed-rotated share of each family; thorough runs — and runs in which the SOURCE FILE of
+            the PDU class differs from the committed baseline (harness/drift.py) — enumerate the families completely (capped).
+            relation_overlay_cases(): decode side, an octet-aligned word of a valid encoding overwritten by a function of one or two other
+            words of the same string.  All cases go through check_fields / check_bits and both directions of the correspondence.
 """
 import enum
 import json
@@ -2756,6 +2773,709 @@ def embedded_crc_cases(ctx, kind, var, rng):
                 yield (fname, label, where, row), out
 
 
+# ---- round 4: arithmetic relations among >= 3 fields / words of one PDU (seeded changes C03-G, C03-H)
+# A codec that special-cases "this field looks like a function of those two" (a folded parity, a checksum of two addresses, a word
+# that is the xor of its neighbours) is only ever wrong on field tuples that satisfy the relation — probability 2^-w per relation
+# under any sampling that draws the fields independently.  The tuples are therefore CONSTRUCTED: the variant's numeric view is a
+# list of UNITS (every integer / bit-string / octet-string field of at least 4 bits, every run of adjacent sub-octet fields read
+# as one number — e.g. the service-options octet —, and the consecutive 32- / 16- / 8-bit words of the opaque payload fields); for
+# ordered unit triples (a, b -> c) the target is set to xor / sum / both differences / and / or / high part of sum and difference
+# of the sources (low part = the result truncated to the target's width), for pairs (a -> c) to a == c across types, rotations,
+# shifts, low / high part, negation, complement, bit / octet reversal, +-1; a == b != c and a == b == c; and PAIRS of relations at
+# once: two targets computed from the same two sources, and two relations on disjoint unit sets, each result optionally rotated /
+# octet-swapped / complemented (depth 2).  Quick runs take a rotating share (seed), thorough runs — and runs in which the source
+# file of the PDU class differs from the committed baseline — enumerate the families completely (capped).
+class Unit:
+    def __init__(self, name, w, get, put, fields, rng_=None, src_only=False, word=None):
+        self.name, self.w, self.get, self.put = name, w, get, put
+        self.fields = frozenset(fields)
+        self.range = rng_  # (lo, hi) bit range inside the field for a word unit, None = the whole field(s)
+        self.src_only = src_only
+        self.word = word  # word width for a word unit
+        self.long = False  # an opaque payload field of more than 64 bits as ONE number (derived quantities only)
+
+    def overlaps(self, other):
+        if not (self.fields & other.fields):
+            return False
+        if self.range is None or other.range is None:
+            return True
+        return self.range[0] < other.range[1] and other.range[0] < self.range[1]
+
+
+def _small_width(sp):
+    if isinstance(sp, UNZ):
+        return None
+    if isinstance(sp, U):
+        return sp.w if sp.w < 8 else None
+    if isinstance(sp, BITS):
+        return sp.n if 0 < sp.n < 8 else None
+    return None
+
+
+def relation_units(var):
+    """the numeric view of a variant: [Unit]"""
+    units = []
+
+    def u_field(n, sp):
+        if isinstance(sp, CHOICE):
+            for alt in (sp.a, sp.b):
+                if isinstance(alt, BITS) and alt.n >= 4:
+                    units.append(Unit(f"{n}/{alt.n}", alt.n, (lambda v, n=n, w=alt.n: int(v[n], 2) if len(v[n]) == w else None),
+                                      (lambda v, x, n=n, w=alt.n: v.__setitem__(n, format(x, f"0{w}b")) or True), [n]))
+            return
+        if isinstance(sp, S):
+            w = sp.w
+            units.append(Unit(n, w, (lambda v, n=n, w=w: v[n] & ((1 << w) - 1)),
+                              (lambda v, x, n=n, w=w: v.__setitem__(n, x - (1 << w) if x >> (w - 1) else x) or True), [n]))
+        elif isinstance(sp, U) and sp.w >= 4:
+            nz = isinstance(sp, UNZ)
+            units.append(Unit(n, sp.w, (lambda v, n=n: v[n]), (lambda v, x, n=n, nz=nz: False if (nz and x == 0) else (v.__setitem__(n, x) or True)), [n]))
+        elif isinstance(sp, E):
+            ints = [x for x in sp.vals if isinstance(x, int) and not isinstance(x, bool)]
+            if len(ints) == len(sp.vals) and max(ints) >= 8:
+                w = max(ints).bit_length()
+                units.append(Unit(n, w, (lambda v, n=n: v[n]), (lambda v, x, n=n, ok=frozenset(ints): (v.__setitem__(n, x) or True) if x in ok else False), [n],
+                                  src_only=True))
+        elif isinstance(sp, BITS) and sp.n >= 4:
+            w = sp.n
+            units.append(Unit(n, w, (lambda v, n=n: int(v[n], 2)), (lambda v, x, n=n, w=w: v.__setitem__(n, format(x, f"0{w}b")) or True), [n]))
+            units[-1].long = w > 64
+            words(n, w, lambda v, n=n: v[n], lambda v, s01, n=n: v.__setitem__(n, s01))
+        elif isinstance(sp, BYTES) and sp.n >= 1:
+            w = 8 * sp.n
+            units.append(Unit(n, w, (lambda v, n=n: int(v[n], 16)), (lambda v, x, n=n, k=sp.n: v.__setitem__(n, x.to_bytes(k, "big").hex()) or True), [n]))
+            units[-1].long = w > 64
+            words(n, w, lambda v, n=n, w=w: format(int(v[n], 16), f"0{w}b"), lambda v, s01, n=n: v.__setitem__(n, bitarray(s01).tobytes().hex()))
+        elif isinstance(sp, VBITS):
+            # relation cases give the field a fixed length (REL_VBITS_LEN bits): the field and words of it
+            units.append(Unit(n, REL_VBITS_LEN, (lambda v, n=n: int(v[n], 2) if len(v[n]) == REL_VBITS_LEN else None),
+                              (lambda v, x, n=n: v.__setitem__(n, format(x, f"0{REL_VBITS_LEN}b")) or True), [n]))
+            words(n, REL_VBITS_LEN, lambda v, n=n: v[n], lambda v, s01, n=n: v.__setitem__(n, s01))
+
+    def words(n, w, get01, put01):
+        for ww in (32, 16, 8):
+            if w < 2 * ww:
+                continue
+            offs = list(range(0, w - ww + 1, ww))
+            if (w - ww) not in offs:
+                offs.append(w - ww)  # right-aligned last word of a field that is not a whole number of words
+            for o in offs:
+                def g(v, o=o, ww=ww):
+                    s01 = get01(v)
+                    return int(s01[o:o + ww], 2) if len(s01) >= o + ww else None
+
+                def pt(v, x, o=o, ww=ww):
+                    s01 = get01(v)
+                    if len(s01) < o + ww:
+                        return False
+                    put01(v, s01[:o] + format(x, f"0{ww}b") + s01[o + ww:])
+                    return True
+
+                units.append(Unit(f"{n}[{o}:{o + ww}]", ww, g, pt, [n], rng_=(o, o + ww), word=ww))
+
+    # runs of adjacent sub-octet fields read as one number (service options octet, flag groups)
+    run = []
+
+    def flush():
+        tot = sum(w for _n, _sp, w in run)
+        if len(run) >= 2 and 8 <= tot <= 32:
+            parts = list(run)
+
+            def g(v, parts=parts):
+                x = 0
+                for n, sp, w in parts:
+                    x = (x << w) | (int(v[n], 2) if isinstance(sp, BITS) else int(v[n]))
+                return x
+
+            def pt(v, x, parts=parts):
+                for n, sp, w in reversed(parts):
+                    y = x & ((1 << w) - 1)
+                    x >>= w
+                    v[n] = format(y, f"0{w}b") if isinstance(sp, BITS) else y
+                return True
+
+            units.append(Unit(parts[0][0] + ".." + parts[-1][0], tot, g, pt, [n for n, _s, _w in parts]))
+        run.clear()
+
+    for n, sp in var.fields:
+        sw = _small_width(sp)
+        if sw is not None:
+            run.append((n, sp, sw))
+        else:
+            flush()
+        u_field(n, sp)
+    flush()
+    return units
+
+
+REL_VBITS_LEN = 64
+REL_BIN = ("xor", "add", "sub", "bus", "and", "or", "add-high", "sub-high")
+REL_BIN_CORE = ("xor", "add", "sub", "bus", "and", "or")
+REL_UN = ("eq", "rotl8", "rotr8", "rotl1", "rotr1", "rotl4", "shl8", "shr8", "shl1", "shr1", "high", "neg", "not", "bitrev", "bswap", "plus1", "minus1")
+REL_POST = ("id", "rotl8", "rotr8", "bswap", "not")
+REL_EQ = ("a==b!=c", "a==b==c", "a==c!=b", "a,a+1,a+2", "a,a+d,a+2d", "a,a-1,a-2")
+REL_DERIVED = ("popcount", "nonzero-octets", "trailing-zero-octets", "leading-zero-octets", "first-octet", "last-octet", "sum-of-octets", "xor-of-octets",
+               "sum-of-16-bit-words", "length-in-octets", "length-in-bits")
+REL_REPEAT = ("all-words-equal", "period-2", "halves-equal", "palindrome", "two-words-equal", "counting", "all-equal-but-one")
+
+
+def rel_derived(op, x, w):
+    """a derived quantity of the w-bit value x"""
+    nb = (w + 7) // 8
+    octs = x.to_bytes(nb, "big")
+    if op == "popcount":
+        return bin(x).count("1")
+    if op == "nonzero-octets":
+        return sum(1 for o in octs if o)
+    if op == "trailing-zero-octets":
+        return len(octs) - len(octs.rstrip(b"\x00"))
+    if op == "leading-zero-octets":
+        return len(octs) - len(octs.lstrip(b"\x00"))
+    if op == "first-octet":
+        return octs[0]
+    if op == "last-octet":
+        return octs[-1]
+    if op == "sum-of-octets":
+        return sum(octs)
+    if op == "xor-of-octets":
+        r = 0
+        for o in octs:
+            r ^= o
+        return r
+    if op == "sum-of-16-bit-words":
+        return sum(int.from_bytes(octs[i:i + 2], "big") for i in range(0, len(octs), 2)) & 0xFFFF
+    if op == "length-in-octets":
+        return nb
+    if op == "length-in-bits":
+        return w
+    raise KeyError(op)
+
+
+def _rot(x, w, r):
+    r %= w
+    x &= (1 << w) - 1
+    return ((x << r) | (x >> (w - r))) & ((1 << w) - 1) if r else x
+
+
+def rel_un(op, a, wa, wc):
+    """value of the target (width wc) for the source value a (width wa); None = the relation does not exist for these widths"""
+    M = (1 << wc) - 1
+    if op in ("eq", "id"):
+        return a & M
+    if op == "high":
+        return (a >> (wa - wc)) if wc < wa else None
+    if op.startswith("rot"):
+        r = int(op[4:])
+        if r >= wc:
+            return None
+        return _rot(a & M, wc, r if op[3] == "l" else wc - r)
+    if op.startswith("shl"):
+        k = int(op[3:])
+        return ((a << k) & M) if k < wc else None
+    if op.startswith("shr"):
+        k = int(op[3:])
+        return ((a >> k) & M) if k < wa else None
+    if op == "neg":
+        return (-a) & M
+    if op == "not":
+        return (~a) & M
+    if op == "plus1":
+        return (a + 1) & M
+    if op == "minus1":
+        return (a - 1) & M
+    if op == "bitrev":
+        return int(format(a & M, f"0{wc}b")[::-1], 2)
+    if op == "bswap":
+        if wc % 8 or wc < 16:
+            return None
+        return int.from_bytes((a & M).to_bytes(wc // 8, "big")[::-1], "big")
+    raise KeyError(op)
+
+
+def rel_bin(op, a, b, wa, wb, wc):
+    M = (1 << wc) - 1
+    W = max(wa, wb)
+    if op == "xor":
+        return (a ^ b) & M
+    if op == "add":
+        return (a + b) & M
+    if op == "sub":
+        return (a - b) & M
+    if op == "bus":
+        return (b - a) & M
+    if op == "and":
+        return a & b & M
+    if op == "or":
+        return (a | b) & M
+    if op == "add-high":
+        return (((a + b) & ((1 << W) - 1)) >> (W - wc)) if wc < W else None
+    if op == "sub-high":
+        return (((a - b) & ((1 << W) - 1)) >> (W - wc)) if wc < W else None
+    raise KeyError(op)
+
+
+def rel_base(var, rng, mode=0):
+    """field values the relations are imposed on: random (variable-length bit fields at a fixed length)"""
+    vals = fill(var, rng, "random")
+    for n, sp in var.fields:
+        if isinstance(sp, VBITS):
+            vals[n] = rand_bits(rng, REL_VBITS_LEN)
+        elif isinstance(sp, CHOICE) and mode % 4 != 3:
+            vals[n] = sp.a.rand(rng)
+    return vals
+
+
+def rel_impose(vals, rel, rng):
+    """impose one relation on vals in place; rel = ("bin", op, post, a, b, c) | ("un", op, a, c) | ("eq", how, a, b, c); False if it
+    cannot hold for these values (target refuses the value / widths)"""
+    kind = rel[0]
+    if kind == "un":
+        _k, op, a, c = rel
+        x = a.get(vals)
+        if x is None:
+            return False
+        y = rel_un(op, x, a.w, c.w)
+        return y is not None and bool(c.put(vals, y))
+    if kind == "bin":
+        _k, op, post, a, b, c = rel
+        x, y = a.get(vals), b.get(vals)
+        if x is None or y is None:
+            return False
+        z = rel_bin(op, x, y, a.w, b.w, c.w)
+        if z is None:
+            return False
+        if post != "id":
+            z = rel_un(post, z, c.w, c.w)
+            if z is None:
+                return False
+        return bool(c.put(vals, z))
+    _k, how, a, b, c = rel
+    x = a.get(vals)
+    if x is None:
+        return False
+    if how == "a==b!=c":
+        if not b.put(vals, x & ((1 << b.w) - 1)):
+            return False
+        z = c.get(vals)
+        if z is not None and z == (x & ((1 << c.w) - 1)):
+            return bool(c.put(vals, (z ^ 1) & ((1 << c.w) - 1)))
+        return True
+    if how == "a==b==c":
+        return bool(b.put(vals, x & ((1 << b.w) - 1))) and bool(c.put(vals, x & ((1 << c.w) - 1)))
+    if how == "a==c!=b":
+        if not c.put(vals, x & ((1 << c.w) - 1)):
+            return False
+        z = b.get(vals)
+        if z is not None and z == (x & ((1 << b.w) - 1)):
+            return bool(b.put(vals, (z ^ 1) & ((1 << b.w) - 1)))
+        return True
+    if how in ("a,a+1,a+2", "a,a+d,a+2d", "a,a-1,a-2"):
+        d = 1 if how == "a,a+1,a+2" else -1 if how == "a,a-1,a-2" else rng.randrange(2, 1 << min(a.w, 16))
+        return bool(b.put(vals, (x + d) & ((1 << b.w) - 1))) and bool(c.put(vals, (x + 2 * d) & ((1 << c.w) - 1)))
+    raise KeyError(how)
+
+
+def rel_name(rel):
+    if rel[0] == "un":
+        return f"{rel[3].name}={rel[1]}({rel[2].name})"
+    if rel[0] == "bin":
+        core = f"{rel[1]}({rel[3].name},{rel[4].name})"
+        return f"{rel[5].name}={core if rel[2] == 'id' else rel[2] + '(' + core + ')'}"
+    return f"{rel[1]}[{rel[2].name},{rel[3].name},{rel[4].name}]"
+
+
+def rel_units_of(rel):
+    return rel[2:] if rel[0] == "un" else rel[3:] if rel[0] == "bin" else rel[2:]
+
+
+def rel_targets(rel):
+    if rel[0] == "eq":
+        return [rel[3], rel[4]]
+    return [rel[-1]]
+
+
+def rel_sources(rel):
+    if rel[0] == "un":
+        return [rel[2]]
+    if rel[0] == "bin":
+        return [rel[3], rel[4]]
+    return [rel[2]]
+
+
+def _disjoint(us):
+    us = list(us)
+    return not any(us[i].overlaps(us[j]) for i in range(len(us)) for j in range(i + 1, len(us)))
+
+
+def relation_triples(units):
+    """(a, b, c) unit triples (a, b unordered sources, c target): all triples of whole-field units; the sliding windows of three
+    consecutive words of an opaque field in every role; two consecutive words + one whole-field unit of comparable width"""
+    import itertools
+
+    whole = [u for u in units if u.word is None and not u.long]
+    out = []
+    for c in whole:
+        if c.src_only:
+            continue
+        rest = [u for u in whole if u is not c and not u.overlaps(c)]
+        for a, b in itertools.combinations(rest, 2):
+            if not a.overlaps(b):
+                out.append((a, b, c))
+    by_field = {}
+    for u in units:
+        if u.word is not None:
+            by_field.setdefault((next(iter(u.fields)), u.word), []).append(u)
+    for (_f, ww), ws in by_field.items():
+        ws = sorted(ws, key=lambda u: u.range[0])
+        ws = [u for i, u in enumerate(ws) if i == 0 or u.range[0] >= ws[i - 1].range[1]]  # drop the overlapping right-aligned word
+        for i in range(len(ws) - 2):
+            x, y, z = ws[i], ws[i + 1], ws[i + 2]
+            out += [(x, y, z), (x, z, y), (y, z, x)]
+        if len(ws) >= 4:
+            out += [(ws[0], ws[1], ws[-1]), (ws[0], ws[-1], ws[1]), (ws[-2], ws[-1], ws[0])]
+        for i in range(len(ws) - 1):
+            x, y = ws[i], ws[i + 1]
+            for u in whole:
+                if u.overlaps(x) or u.overlaps(y) or not (ww // 2 <= u.w <= 2 * ww):
+                    continue
+                if not u.src_only:
+                    out.append((x, y, u))
+                out += [(u, x, y), (u, y, x)]
+    return out
+
+
+def relation_pairs_units(units):
+    """(a, c) ordered unit pairs for the one-source relations: whole-field units of comparable width, neighbouring words, a word
+    and a whole-field unit of comparable width"""
+    whole = [u for u in units if u.word is None and not u.long]
+    out = []
+    for a in whole:
+        for c in whole:
+            if c is a or c.src_only or a.overlaps(c):
+                continue
+            if min(a.w, c.w) * 4 >= max(a.w, c.w):
+                out.append((a, c))
+    by_field = {}
+    for u in units:
+        if u.word is not None:
+            by_field.setdefault((next(iter(u.fields)), u.word), []).append(u)
+    for (_f, ww), ws in by_field.items():
+        ws = sorted(ws, key=lambda u: u.range[0])
+        ws = [u for i, u in enumerate(ws) if i == 0 or u.range[0] >= ws[i - 1].range[1]]
+        for i in range(len(ws) - 1):
+            out += [(ws[i], ws[i + 1]), (ws[i + 1], ws[i])]
+        if len(ws) >= 3:
+            out += [(ws[0], ws[-1]), (ws[-1], ws[0])]
+        for x in (ws[:2] + ws[-1:]) if len(ws) > 3 else ws:
+            for u in whole:
+                if u.overlaps(x) or not (ww // 2 <= u.w <= 2 * ww):
+                    continue
+                out.append((u, x))
+                if not u.src_only:
+                    out.append((x, u))
+    return out
+
+
+def kind_source_changed(ctx, kind):
+    """the source file of the kind's PDU class is among the files whose functions differ from the committed baseline"""
+    import sys as _sys
+
+    changed = {d.partition("::")[0] for d in (getattr(ctx, "drift", None) or [])}
+    if not changed:
+        return False
+    for v in kind.variants:
+        if v.cls is not None:
+            f = getattr(_sys.modules.get(v.cls.__module__), "__file__", "") or ""
+            f = f.replace("\\", "/")
+            if any(f.endswith("/" + c) or f.endswith(c) for c in changed):
+                return True
+    return False
+
+
+def relation_cases(ctx, kind, var, rng):
+    """yield (desc, vals, labels): field tuples satisfying one relation / two relations at once (see the comment above)"""
+    units = relation_units(var)
+    if len(units) < 2:
+        return
+    full = ctx.thorough()
+    directed = kind_source_changed(ctx, kind)
+    seed = getattr(ctx, "seed", 0)
+    triples = relation_triples(units)
+    upairs = relation_pairs_units(units)
+    # ---- single relations
+    singles = [("bin", op, "id", a, b, c) for (a, b, c) in triples for op in REL_BIN]
+    singles += [("eq", how, a, b, c) for (a, b, c) in triples for how in REL_EQ if (a.w == b.w or how == "a==c!=b") and not b.src_only]
+    singles += [("un", op, a, c) for (a, c) in upairs for op in REL_UN]
+    cap1 = ctx.budget(600, 8000) * (4 if directed else 1)
+    share = max(1, -(-len(singles) // cap1))
+    phase = (seed * 7 + len(var.name)) % share
+    for i, rel in enumerate(singles):
+        if i % share != phase:
+            continue
+        for attempt in range(3):
+            vals = rel_base(var, rng, i + attempt)
+            if rel_impose(vals, rel, rng):
+                vals = {n: vals[n] for n, _s in var.fields}
+                yield ("rel1", rel_name(rel)), vals, ["relation:" + (rel[1] if rel[0] != "eq" else rel[1])]
+                break
+    # ---- the check field = the RIGHT check value combined with another field (a parity folded with an address)
+    whole = [u for u in units if u.word is None and not u.long]
+    for cf in getattr(kind, "check", None) or []:
+        if dict(var.fields).get(cf.field) is None:
+            continue
+        others = [u for u in whole if cf.field not in u.fields] + [u for u in units if u.word in (16, 32) and cf.field not in u.fields][:4]
+        for ai, a in enumerate(others):
+            for oi, op in enumerate(("xor", "add", "sub", "bus", "and", "or")):
+                if not (full or directed) and (ai + oi + seed) % 2:
+                    continue
+                vals = rel_base(var, rng, 0)
+                if not cf.applies(var, vals):
+                    continue
+                res, err = call(cf.right, var, vals)
+                x = a.get(vals)
+                if err or not res[1] or x is None:
+                    continue
+                rl, rv = res[1][(ai + oi) % len(res[1])]
+                z = rel_bin(op, rv, x, cf.width, a.w, cf.width)
+                vals[cf.field] = cf.to_plain(z)
+                vals = {n: vals[n] for n, _s in var.fields}
+                yield ("rel-check", f"{cf.field}/{cf.width}={op}(right-value:{rl},{a.name})"), vals, ["relation:check-field-mixed-with-a-field"]
+    # ---- derived quantities of a payload field standing in another field; exact population counts; repeated sub-blocks
+    payloads = [u for u in units if u.word is None and u.w >= 16 and any(isinstance(sp, (BYTES, BITS, VBITS)) and n in u.fields for n, sp in var.fields)
+                and not any(cf.field in u.fields for cf in (getattr(kind, "check", None) or []))]
+    for a in payloads:
+        for c in whole:
+            if c.src_only or c.overlaps(a):
+                continue
+            for op in REL_DERIVED:
+                vals = rel_base(var, rng, 0)
+                x = a.get(vals)
+                if x is None:
+                    continue
+                if op in ("trailing-zero-octets", "leading-zero-octets", "nonzero-octets"):
+                    # make the quantity non-trivial: clear a random run of octets first
+                    nb = a.w // 8
+                    k = rng.randrange(1, max(2, nb))
+                    x = (x >> (8 * k) << (8 * k)) if op == "trailing-zero-octets" else (x & ((1 << (a.w - 8 * k)) - 1)) if op == "leading-zero-octets" \
+                        else x & ~(0xFF << (8 * rng.randrange(nb)))
+                    if not a.put(vals, x):
+                        continue
+                z = rel_derived(op, x, a.w) & ((1 << c.w) - 1)
+                if c.put(vals, z):
+                    vals = {n: vals[n] for n, _s in var.fields}
+                    yield ("rel-derived", f"{c.name}={op}({a.name})"), vals, ["relation:derived:" + op]
+        for k in range(a.w + 1):
+            if not full and a.w > 64 and (k + seed) % 2 and 4 < k < a.w - 4:
+                continue
+            vals = rel_base(var, rng, 0)
+            x = 0
+            for pos in rng.sample(range(a.w), k):
+                x |= 1 << pos
+            if a.put(vals, x):
+                vals = {n: vals[n] for n, _s in var.fields}
+                yield ("popcount", a.name, k), vals, ["relation:population-count-exactly-k"]
+        for ww in (8, 16, 32):
+            nw = a.w // ww
+            if a.w % ww or nw < 2:
+                continue
+            for pat in REL_REPEAT:
+                vals = rel_base(var, rng, 0)
+                ws = [rng.getrandbits(ww) for _ in range(nw)]
+                if pat == "all-words-equal":
+                    ws = [ws[0]] * nw
+                elif pat == "period-2":
+                    ws = [ws[i % 2] for i in range(nw)]
+                elif pat == "halves-equal":
+                    if nw % 2:
+                        continue
+                    ws = ws[: nw // 2] * 2
+                elif pat == "palindrome":
+                    ws = [ws[min(i, nw - 1 - i)] for i in range(nw)]
+                elif pat == "two-words-equal":
+                    i, j = rng.sample(range(nw), 2)
+                    ws[j] = ws[i]
+                elif pat == "counting":
+                    ws = [(ws[0] + i) & ((1 << ww) - 1) for i in range(nw)]
+                elif pat == "all-equal-but-one":
+                    ws = [ws[0]] * nw
+                    ws[rng.randrange(nw)] ^= 1 << rng.randrange(ww)
+                x = 0
+                for w_ in ws:
+                    x = (x << ww) | w_
+                if a.put(vals, x):
+                    vals = {n: vals[n] for n, _s in var.fields}
+                    yield ("repeat", a.name, ww, pat), vals, ["relation:repeated-sub-blocks:" + pat]
+    # ---- two relations at once
+
+    def both(r1, r2, tag, i):
+        tg = rel_targets(r1) + rel_targets(r2)
+        src = rel_sources(r1) + rel_sources(r2)
+        if not _disjoint(tg) or any(t.overlaps(s_) for t in tg for s_ in src):
+            return None
+        for attempt in range(2):
+            vals = rel_base(var, rng, i + attempt)
+            if rel_impose(vals, r1, rng) and rel_impose(vals, r2, rng):
+                return {n: vals[n] for n, _s in var.fields}
+        return None
+
+    import itertools
+
+    # P1: two targets computed from the same two sources (a folded parity AND a checksum of the same two addresses)
+    srcs = [u for u in whole] + [u for u in units if u.word == 32][:3]
+
+    def p1():
+        for a, b in itertools.combinations(srcs, 2):
+            if a.overlaps(b):
+                continue
+            tgts = [u for u in whole if not u.src_only and not u.overlaps(a) and not u.overlaps(b)]
+            for c1, c2 in itertools.combinations(tgts, 2):
+                if c1.overlaps(c2):
+                    continue
+                for op1 in REL_BIN_CORE:
+                    for op2 in REL_BIN_CORE:
+                        yield (("bin", op1, "id", a, b, c1), ("bin", op2, "id", a, b, c2))
+
+    # P2: two relations on disjoint unit sets; the words of one width of the payload and the whole-field units of that width form
+    # a class of at most six units; in the widest class (thorough / changed source) each result is also rotated / swapped / complemented
+    classes = []
+    for ww in (32, 24, 16, 8):
+        keep = []
+        for u in units:
+            if u.w == ww and u.word in (None, ww) and all(not u.overlaps(k_) for k_ in keep):
+                keep.append(u)
+        if len(keep) >= 5:
+            # the whole-field units of the class (a CRC-32 next to 32-bit data words) and the first words
+            keep = [u for u in keep if u.word is None][:3] + [u for u in keep if u.word is not None]
+            classes.append(sorted(keep[:6], key=lambda u: (u.word is None, u.range or (0, 0))))
+    depth2 = full or directed
+
+    def p2():
+        for ci, cl in enumerate(classes):
+            posts = REL_POST if (depth2 and ci == 0) else ("id",)
+            for t1 in itertools.combinations(range(len(cl)), 3):
+                rest = [i for i in range(len(cl)) if i not in t1]
+                for t2 in itertools.combinations(rest, 3):
+                    if t1 > t2:
+                        continue
+                    for c1 in t1:
+                        if cl[c1].src_only:
+                            continue
+                        a1, b1 = [cl[i] for i in t1 if i != c1]
+                        for c2 in t2:
+                            if cl[c2].src_only:
+                                continue
+                            a2, b2 = [cl[i] for i in t2 if i != c2]
+                            for op1 in REL_BIN_CORE:
+                                for op2 in REL_BIN_CORE:
+                                    for post1 in posts:
+                                        for post2 in posts:
+                                            if post1 != "id" and post2 != "id":
+                                                continue  # at most one of the two results is transformed
+                                            yield (("bin", op1, post1, a1, b1, cl[c1]), ("bin", op2, post2, a2, b2, cl[c2]))
+                for t2 in itertools.permutations(rest, 2):  # a two-source and a one-source relation: five units
+                    if cl[t2[1]].src_only:
+                        continue
+                    for c1 in t1:
+                        if cl[c1].src_only:
+                            continue
+                        a1, b1 = [cl[i] for i in t1 if i != c1]
+                        for op1 in REL_BIN_CORE[:3]:
+                            for op2 in ("eq", "rotl8", "not", "bswap", "plus1"):
+                                yield (("bin", op1, "id", a1, b1, cl[c1]), ("un", op2, cl[t2[0]], cl[t2[1]]))
+
+    # mixed-width disjoint pairs over the whole-field units (sampled)
+    p3l = []
+    if len(whole) >= 5:
+        for _ in range(ctx.budget(60, 1500)):
+            us = rng.sample(whole, 5)
+            if not _disjoint(us) or us[2].src_only or us[4].src_only:
+                continue
+            p3l.append((("bin", rng.choice(REL_BIN), "id", us[0], us[1], us[2]), ("un", rng.choice(REL_UN), us[3], us[4])))
+        if len(whole) >= 6:
+            for _ in range(ctx.budget(60, 1500)):
+                us = rng.sample(whole, 6)
+                if not _disjoint(us) or us[2].src_only or us[5].src_only:
+                    continue
+                p3l.append((("bin", rng.choice(REL_BIN), "id", us[0], us[1], us[2]), ("bin", rng.choice(REL_BIN), "id", us[3], us[4], us[5])))
+    for tag, fam, capq, capt in (("same-sources-two-targets", p1, 200, 20000), ("disjoint-same-width", p2, 200, 40000),
+                                 ("disjoint-mixed", (lambda: iter(p3l)), 100, 3000)):
+        size = sum(1 for _ in fam())
+        if not size:
+            continue
+        cap = capt if full else capq * ctx.boost
+        if directed:
+            cap = max(cap, REL_DIRECTED_CAP)
+        share = max(1, -(-size // cap))
+        phase = (seed * 11 + len(var.name) * 3) % share
+        for i, (r1, r2) in enumerate(fam()):
+            if i % share != phase:
+                continue
+            vals = both(r1, r2, tag, i)
+            if vals is None:
+                continue
+            yield ("rel2", tag, rel_name(r1), rel_name(r2)), vals, ["relation-pair:" + tag]
+        ctx.count(f"relation-pair:{tag}:family-size", size)
+
+
+REL_DIRECTED_CAP = 120000
+
+
+def relation_overlay_cases(ctx, kind, rng, bases):
+    """yield (desc, bitarray): decode side — over valid encodings, an octet-aligned word of 8 / 16 / 24 / 32 bits is overwritten by a
+    function of one or two other (non-overlapping) words of the same string; two such relations at once on a share of the cases"""
+    n_cases = ctx.budget(300, 4000)
+    if not bases:
+        return
+    for i in range(n_cases):
+        vname, base = bases[i % len(bases)]
+        nb = len(base) // 8
+        if nb < 4:
+            return
+        b = base.copy()
+        # fresh random payload behind the first two octets (opcode / format selectors), so that the words are not the base's own
+        if i % 3:
+            b[16:8 * nb] = int2ba(rng.getrandbits(8 * nb - 16), length=8 * nb - 16)
+        labels = []
+        used = []
+        for _r in range(2 if i % 4 == 0 else 1):
+            for _attempt in range(8):
+                k = rng.choice((1, 2, 3, 4, 3, 4))
+                kc = k if rng.random() < 0.7 else rng.choice((1, 2, 3, 4))
+                if nb < 2 * k + kc + 1:
+                    continue
+                oc = rng.randrange(1, nb - kc + 1)
+                oa = rng.randrange(0, nb - k + 1)
+                ob = rng.randrange(0, nb - k + 1)
+                spans = [(oa, oa + k), (ob, ob + k), (oc, oc + kc)]
+                if any(x[0] < y[1] and y[0] < x[1] for j, x in enumerate(spans) for y in spans[j + 1:]):
+                    continue
+                if any(oc < e and s_ < oc + kc for s_, e in used) or any((s_ < u[1] and u[0] < e) for (s_, e) in spans[:2] for u in used[2::3]):
+                    continue
+                a = ba2int(b[8 * oa:8 * (oa + k)])
+                bb = ba2int(b[8 * ob:8 * (ob + k)])
+                if rng.random() < 0.7:
+                    op = rng.choice(REL_BIN)
+                    z = rel_bin(op, a, bb, 8 * k, 8 * k, 8 * kc)
+                    lab = op
+                else:
+                    op = rng.choice(REL_UN)
+                    z = rel_un(op, a, 8 * k, 8 * kc)
+                    lab = op
+                if z is None:
+                    continue
+                if rng.random() < 0.25:
+                    post = rng.choice(REL_POST[1:])
+                    z2 = rel_un(post, z, 8 * kc, 8 * kc)
+                    if z2 is not None:
+                        z, lab = z2, post + "." + lab
+                b[8 * oc:8 * (oc + kc)] = int2ba(z, length=8 * kc)
+                used += spans
+                labels.append(f"{lab}@{oa},{ob}->{oc}/{k},{kc}")
+                break
+        if labels:
+            yield ("relation-overlay", vname, tuple(labels)), b, labels
+
+
 # ---- argument provenance (round 3): the same bits handed over as another kind of object the decoder accepts
 def provenance_variants(b):
     """[(label, argument)] — the bit string b as an immutable frozenbitarray, as a read-only bitarray over an imported buffer, as a
@@ -3118,7 +3838,16 @@ def run(ctx):
         "body; right value from the library and from an independent computation), crossed with every selector value (all feature set ids); the "
         "same on the decode side over all 256 values of the two selector octets; a CRC of one part of the PDU inside an opaque payload field; "
         "error paths (valid calls - failing calls - the same valid calls); a fixed sample under ambient conditions (root logger DEBUG, stdout "
-        "raising, both, random reseeded, warnings as errors) and in child interpreters (fresh, python -O, first call on every class failing)"
+        "raising, both, random reseeded, warnings as errors) and in child interpreters (fresh, python -O, first call on every class failing). "
+        "Round 4: field tuples CONSTRUCTED to satisfy arithmetic relations among the fields / words of one PDU (units = integer, bit-string, octet-string "
+        "fields of >= 4 bits, runs of adjacent sub-octet fields as one number, consecutive 32/16/8-bit words of opaque payloads): target = xor, sum, "
+        "differences, and, or, high part of sum / difference of two other units (low part by truncation); one-source relations (equal across types, rotations, "
+        "shifts, high part, negation, complement, bit / octet reversal, +-1); a == b != c, a == b == c, progressions; check field = right check value combined "
+        "with another field; derived quantities of a payload (population count, zero-octet counts, first / last octet, octet sum / xor, length) in another "
+        "field; every exact population count of every payload field; repeated sub-blocks; TWO relations at once (two targets from the same two sources; "
+        "two relations on disjoint units of one width class with one result optionally rotated / swapped / complemented; mixed-width pairs) — a seed-rotated "
+        "share of each family in quick, the complete families (capped) in thorough and whenever the source file of the PDU class differs from the committed "
+        "baseline; decode side: an octet-aligned word of a valid encoding overwritten by a function of one or two other words"
     )
     ctx.trusted_base += [
         "Lean 4.33 kernel",
@@ -3258,6 +3987,17 @@ def run(ctx):
             for desc, vals in embedded_crc_cases(ctx, k, var, ctx.rng):
                 ctx.count(f"embedded-crc:{kn}")
                 run_fields_case(ctx, k, var, vals, r3_pairs, ("emb", k.name, var.name, json.dumps(vals, sort_keys=True)), dec_pairs=r3_dec)
+            # round 4: arithmetic relations among >= 3 fields / words of the PDU, one and two at a time
+            for desc, vals, labels in relation_cases(ctx, k, var, ctx.rng):
+                for lb in labels:
+                    ctx.count(lb)
+                ctx.count(f"relation-cases:{kn}")
+                smp = None
+                if (k.name, var.name, desc[0]) == ("flc", "unitToUnit", "rel2") and not getattr(ctx, "_rel_sampled", False):
+                    ctx._rel_sampled = True
+                    smp = {"kind": k.name, "variant": var.name, "relation": list(desc[1:]), "fields": vals}
+                run_fields_case(ctx, k, var, vals, r3_pairs, ("rel", k.name, var.name, desc, json.dumps(vals, sort_keys=True)), sample=smp,
+                                dec_pairs=r3_dec, opts={"relation": list(desc[1:])} if var.cls is not None else None)
             for cf in k.check:
                 for desc, vals, tl in check_field_cases(ctx, k, var, cf, ctx.rng):
                     ctx.count("check:" + _re.sub(r"\d+", "N", tl))
@@ -3321,6 +4061,9 @@ def run(ctx):
         if k.length != 8:
             for desc, b, tcls in token_overlay_cases(ctx, k, ctx.rng, toks):
                 ctx.count(f"token-overlay:{desc[0]}:{k.name}")
+                seeds.append(b)
+            for desc, b, labels in relation_overlay_cases(ctx, k, ctx.rng, variant_bases(k, ctx.rng, per_variant=2)):
+                ctx.count(f"relation-overlay:{k.name}")
                 seeds.append(b)
             for cf in k.check:
                 bases = {}
